@@ -51,6 +51,7 @@ pub mod kstep;
 pub mod c08;
 pub mod kfam;
 pub mod c09;
+pub mod c12;
 pub mod c13;
 pub mod c14;
 pub mod c16;
@@ -65,7 +66,7 @@ pub mod gen_os { include!("gen/os_image.rs"); }
 pub mod pstep;
 
 pub fn tables() -> Vec<&'static [(&'static str, fn())]> {
-    vec![c01::TABLE, c05::TABLE, c07::TABLE, c10::TABLE, c10::k::TABLE, c10::bracket::TABLE, c25::TABLE, c26::TABLE, c35::TABLE, c06::TABLE, c15::TABLE, c08::TABLE, c08::ir::TABLE, c09::TABLE, c13::TABLE, c14::TABLE, c16::TABLE, c27::TABLE, c28::TABLE, c32::TABLE, c32::mm::TABLE, c33::TABLE, c34::TABLE, probe::TABLE, pstep::TABLE]
+    vec![c01::TABLE, c05::TABLE, c07::TABLE, c10::TABLE, c10::k::TABLE, c10::bracket::TABLE, c25::TABLE, c26::TABLE, c35::TABLE, c06::TABLE, c15::TABLE, c08::TABLE, c08::ir::TABLE, c09::TABLE, c12::TABLE, c13::TABLE, c14::TABLE, c16::TABLE, c27::TABLE, c28::TABLE, c32::TABLE, c32::mm::TABLE, c33::TABLE, c34::TABLE, probe::TABLE, pstep::TABLE]
 }
 
 pub fn lookup(name: &str) -> Option<fn()> {
